@@ -25,12 +25,14 @@ func c06BytesEq(a, b []byte) bool {
 }
 
 func Harness_C06_injective() {
-	m1 := verifString("m1", 2)
-	h1 := verifString("h1", 2)
-	u1 := verifString("u1", 3)
-	m2 := verifString("m2", 2)
-	h2 := verifString("h2", 2)
-	u2 := verifString("u2", 3)
+	// quick: method/host <= 2, URI <= 3 bytes; thorough: one byte more each
+	t := verifTier()
+	m1 := verifString("m1", 2+t)
+	h1 := verifString("h1", 2+t)
+	u1 := verifString("u1", 3+t)
+	m2 := verifString("m2", 2+t)
+	h2 := verifString("h2", 2+t)
+	u2 := verifString("u2", 3+t)
 	// HTTP syntax: method is a token and Host contains no SP (net/http rejects such request lines);
 	// the request-URI of a served request is never empty
 	c06NoSpace(m1)
